@@ -20,6 +20,8 @@ func runExtra(cmd string, args []string) error {
 		return cmdIdmReplay(args)
 	case "idmconc":
 		return cmdIdmConc(args)
+	case "copyrun":
+		return cmdCopyRun(args)
 	}
 
 	return fmt.Errorf("unknown command %q", cmd)
@@ -170,6 +172,43 @@ func cmdIdmConc(args []string) error {
 	}
 
 	b, _ := json.Marshal(map[string]any{"executions": *iters, "distinct": n})
+	fmt.Println(string(b))
+
+	return nil
+}
+
+func cmdCopyRun(args []string) error {
+	fl := flag.NewFlagSet("copyrun", flag.ExitOnError)
+	plans := fl.String("plans", "", "plans emitted by CopySpec")
+	out := fl.String("out", "", "recorded runs")
+	pairs := fl.String("pairs", "memfs:memfs,memfs:orefafs,orefafs:memfs,osfs:memfs,memfs:osfs", "source:destination pairs")
+	scratch := fl.String("scratch", os.TempDir(), "directory for osfs files")
+	_ = fl.Parse(args)
+
+	in, err := os.Open(*plans)
+	if err != nil {
+		return err
+	}
+	defer in.Close()
+
+	of, err := os.Create(*out)
+	if err != nil {
+		return err
+	}
+	defer of.Close()
+
+	var ps [][2]string
+	for _, p := range strings.Split(*pairs, ",") {
+		sd := strings.Split(p, ":")
+		ps = append(ps, [2]string{sd[0], sd[1]})
+	}
+
+	n, err := drv.RunCopyPlans(in, of, ps, *scratch)
+	if err != nil {
+		return err
+	}
+
+	b, _ := json.Marshal(map[string]any{"runs": n})
 	fmt.Println(string(b))
 
 	return nil
